@@ -1,6 +1,17 @@
 /-
-Lemmas.GettersLemmas — typing of parse results (`HasShape`, `parse_shape`) and the algebra of the
-getter forest (`Forest.get?` after `prepend` / `join`, `evalGetter` of a `merge`), used by `Props/C16`.
+Lemmas.GettersLemmas — everything `Props/C16` rests on.
+
+* `HasShape n lo hi v` ("`v` is a value of type expression `n` occupying `[lo, hi]`": sequences have one
+  `Skipped` per element, choices carry `idx < arity` and a value of that alternative, …) and
+  `parse_shape`: every successful `parse` returns a well-shaped value (induction on fuel; loops through
+  `SeqRun` / `RepRun` / `choiceLoop_ok_iff` of `Lemmas/Choice`);
+* the forest as a finite map: `Forest.get?` after `prepend` / `upsert` / `join` (`mergeOpt`), key sets, `Nodup`;
+* `GoodAt t v refs` (the path applies, the result has the announced type, its references are `refs`) under
+  `merge` and under each edge; `directRefs` equations; `NoRefs` for built-in names; `ident_shape`;
+* right spines (`seqSpine`, `choiceSpine`, `spineFold`), `PExpr.spine_induction`;
+* the three inductions over expressions: `genGetters_keys` (which accessors exist), `genGetters_good`
+  (flatten = directRefs, typed, never stuck), `directRefs_ordered` (order without lookahead);
+* `directRefs_sub` (direct references are sub-values) and `evalGetter_projects` (paths are projections).
 -/
 import PestTyped.Model.Getters
 import PestTyped.Lemmas.Choice
